@@ -198,6 +198,13 @@ impl FragmentedMuxer {
         }
 
         let samples = std::mem::take(&mut self.samples);
+        // The fragment's base decode time is the decode time of its first sample on the
+        // caller's own timeline. (It used to be an estimate derived from the previous
+        // fragment - last DTS plus the average frame duration, starting from 0 - which
+        // moved backwards on irregular input, put the first fragment of a stream that does
+        // not start at zero on a different timeline than the following ones, and
+        // overflowed for DTS values near u64::MAX.)
+        self.base_media_decode_time = samples[0].dts;
         let segment = build_media_segment(
             &samples,
             self.sequence_number,
@@ -207,16 +214,6 @@ impl FragmentedMuxer {
 
         // Update state for next segment
         self.sequence_number += 1;
-        if let Some(last) = samples.last() {
-            // Estimate next base_media_decode_time
-            if samples.len() >= 2 {
-                let duration_total = last.dts.saturating_sub(samples[0].dts);
-                let avg_duration = duration_total / (samples.len() as u64 - 1);
-                self.base_media_decode_time = last.dts + avg_duration;
-            } else {
-                self.base_media_decode_time = last.dts + 3000; // Fallback: 1 frame at 30fps
-            }
-        }
 
         Some(segment)
     }
